@@ -138,6 +138,7 @@ class SimActorSystem:
         self.faults = {}
         self.interrupt_at = None  # virtual time at which the external ask raises KeyboardInterrupt
         self.on_deliver = None  # observation hook (cell, msg, sender)
+        self.on_handled = None  # observation hook (cell, msg), after the handler returned
         self.on_step = None
         self.timer_late = k.get("timer_late", True)
         self.hang = None
@@ -387,6 +388,8 @@ class SimActorSystem:
         finally:
             cell.handler_depth -= 1
             self.clock.proc, self.current = old_proc, old_cur
+        if self.on_handled:
+            self.on_handled(cell, msg)
         if isinstance(msg, th.ActorExitRequest):
             self._begin_exit(cell)
         elif isinstance(msg, th.ChildActorExited):
